@@ -367,7 +367,58 @@ func boundedStep(p *core.Prog, res *core.Result, fi *core.FuncInfo, rule string,
 	incs := 0
 	sendsOther := false
 	var problems []string
+	// named booleans defined at the top level of the loop body stand for their expression
+	named := map[types.Object]ast.Expr{}
 	for _, st := range loop.Body.List {
+		if as, ok := st.(*ast.AssignStmt); ok && as.Tok == token.DEFINE && len(as.Lhs) == 1 && len(as.Rhs) == 1 {
+			if id, ok := as.Lhs[0].(*ast.Ident); ok {
+				if o := info.Defs[id]; o != nil {
+					if b, isB := o.Type().Underlying().(*types.Basic); isB && b.Kind() == types.Bool {
+						named[o] = as.Rhs[0]
+					}
+				}
+			}
+		}
+	}
+	expand := func(e ast.Expr) ast.Expr {
+		if id, ok := ast.Unparen(e).(*ast.Ident); ok {
+			if d, ok := named[info.Uses[id]]; ok {
+				return &ast.ParenExpr{X: d}
+			}
+		}
+		return e
+	}
+	// a tagless switch is an if / else-if chain
+	var stmts []ast.Stmt
+	for _, st := range loop.Body.List {
+		sw, ok := st.(*ast.SwitchStmt)
+		if !ok || sw.Tag != nil || sw.Init != nil {
+			stmts = append(stmts, st)
+			continue
+		}
+		var head, cur *ast.IfStmt
+		okChain := true
+		for _, c := range sw.Body.List {
+			cc := c.(*ast.CaseClause)
+			if len(cc.List) != 1 {
+				okChain = false // default clause or several conditions: left as it is
+				break
+			}
+			n := &ast.IfStmt{If: cc.Pos(), Cond: cc.List[0], Body: &ast.BlockStmt{Lbrace: cc.Colon, List: cc.Body, Rbrace: cc.End()}}
+			if head == nil {
+				head = n
+			} else {
+				cur.Else = n
+			}
+			cur = n
+		}
+		if okChain && head != nil {
+			stmts = append(stmts, head)
+		} else {
+			stmts = append(stmts, st)
+		}
+	}
+	for _, st := range stmts {
 		switch s := st.(type) {
 		case *ast.IfStmt:
 			// signal guard: if t.IsSignal() { out <- t; continue }
@@ -386,8 +437,9 @@ func boundedStep(p *core.Prog, res *core.Result, fi *core.FuncInfo, rule string,
 				for _, b := range is.Body.List {
 					if snd, ok := b.(*ast.SendStmt); ok {
 						if defOrUse(info, snd.Value) == tv {
-							c := is.Cond
+							c := expand(is.Cond)
 							for _, ne := range neg {
+								ne = expand(ne)
 								c = &ast.BinaryExpr{X: &ast.UnaryExpr{Op: token.NOT, X: &ast.ParenExpr{X: ne}}, Op: token.LAND, Y: &ast.ParenExpr{X: c}}
 							}
 							sendCond = c
